@@ -9,7 +9,7 @@ an integer payload and an ordered list of references to other objects.
 
     read i | mod i v | link i j | unlink i j | add i          object level
     wlink i j                                                  link through a persistent.wref.WeakRef
-    commit | abort | sp | rb n | close | open                  transaction / connection level
+    commit | abort | sp | rb n | close | open | sync           transaction / connection level (sync = conn.sync())
     commitf rm before|after begin|commit|vote|finish           commit with a failing 2nd resource manager
     commitf store j | commitf vote                             commit with a storage fault (j-th store / vote)
     commitf pickle k                                           commit while the state of object k cannot be pickled
@@ -358,6 +358,12 @@ class World:
         self.after_boundary()
         return 'ok tmp=%d' % self.tmp_left()
 
+    def op_sync(self):
+        """Connection.sync(): begins a new transaction, i.e. aborts the current one"""
+        self.conn.sync()
+        self.after_boundary()
+        return 'ok tmp=%d' % self.tmp_left()
+
     def op_sp(self):
         self.sps.append(self.tm.savepoint())
         return 'ok'
@@ -445,6 +451,8 @@ class World:
                 r, extra = self.op_commit(t[1:])
             elif t[0] == 'abort':
                 r = self.op_abort()
+            elif t[0] == 'sync':
+                r = self.op_sync()
             elif t[0] == 'sp':
                 r = self.op_sp()
             elif t[0] == 'rb':
@@ -716,6 +724,10 @@ class Oracle:
             if self.open:
                 self.boundary()
             return 'ok t=%d w=[%s] tmp=0' % (self.rank, ','.join(map(str, W)))
+        if k == 'sync':
+            if not self.open:
+                raise Tainted()         # (sync of a closed connection is not generated)
+            k = 'abort'                 # Connection.sync() = transaction_manager.begin(): aborts what is pending
         if k == 'abort':
             self.fail_explicit = set()
             self.revert()
@@ -814,6 +826,7 @@ def judge(case, real, pid):
     """Run the oracle along the real observations.  Returns (index, signature, what) of the first
     observation the property statement rejects, ('taint', index) when the rest of the program is outside
     the claim, or None."""
+    pid = case.get('as', pid)       # (savepoint programs inside the C11 run are judged in C12 mode)
     if case.get('family') == 'multidb':
         import c11_multidb
         return c11_multidb.judge(case, real)
@@ -897,8 +910,10 @@ def gen_case(rng, pid, size, kind):
                     ops.append('commitf pickle %d' % rng.randrange(1, n))
                 else:
                     ops.append('commitf vote')
-            elif r < 0.85:
+            elif r < 0.83:
                 ops.append('abort')
+            elif r < 0.85:
+                ops.append('sync')
             elif r < 0.89:
                 ops.append('close')
                 if rng.random() < 0.8:
@@ -973,8 +988,32 @@ def gen_scenario(rng, pid, kind):
         # a commit that fails while the state of one object is pickled — the registered container, an
         # implicitly added object in the middle of the writer's stack, or the last one — then the same
         # objects are linked again (the "repair" touches no object), committed, and read elsewhere
-        t = rng.randrange(5)
-        if t >= 3:
+        t = rng.randrange(8)
+        if t == 7:
+            # Connection.sync() with pending changes and added objects: it aborts them
+            ops = ['link 0 %d' % a, 'commit', 'mod %d %d' % (a, val()), rng.choice(['add %d' % b, 'link %d %d' % (a, b)]),
+                   'sync', 'read %d' % a, 'close', 'open', 'mod 0 %d' % val(), 'commit']
+        elif t >= 5:
+            # changes that went through a savepoint, then a commit that fails BEFORE the connection voted
+            # (another resource manager raising in commit(), a conflict or a storage fault while the
+            # savepoint data is copied): every saved object shows its committed state again
+            ops = ['link 0 %d' % a, 'link 0 %d' % b, 'commit', 'mod %d %d' % (a, val()), 'mod 0 %d' % val(), 'sp']
+            if rng.random() < 0.5:
+                ops += ['mod %d %d' % (b, val())]
+            if rng.random() < 0.3:
+                ops += ['link %d %d' % (a, c), 'sp']
+            f = rng.choice(['commitf rm after commit', 'commitf rm before vote', 'commitf store 0', 'commitf store 1',
+                            'commitf rm before commit', 'ext', 'commitf vote'])
+            if f == 'ext':
+                ops += ['ext %d %d' % (rng.choice([0, a]), 10 + val()), 'commit']
+            else:
+                ops += [f]
+            ops += ['read %d' % a, 'read 0', 'mod %d %d' % (b, val()), 'commit']
+            for _ in range(rng.randrange(2)):
+                ops.insert(rng.randrange(len(ops) + 1), 'read %d' % rng.randrange(n))
+            ops += ['read %d' % i for i in range(n)] + ['commit'] + ['peek %d' % i for i in range(n)]
+            return {'kind': kind, 'n': n, 'ops': ops, 'as': 'C12'}
+        elif t >= 3:
             # a NEW object reached through a persistent weak reference that is pickled before any
             # ordinary reference to it (or without one in this transaction): it is stored all the same
             h = rng.choice([0, 0, c])
@@ -1008,8 +1047,15 @@ def gen_scenario(rng, pid, kind):
             ops.insert(pos, rng.choice(['read %d' % i, 'mod %d %d' % (i, val()), 'peek %d' % i]))
         ops += ['read %d' % i for i in range(n)] + ['commit'] + ['peek %d' % i for i in range(n)]
         return dict(kind=kind, n=n, ops=ops)
-    t = rng.randrange(8)
-    if t == 7:      # the commit's own checkpoint fails (unpicklable object) after an earlier savepoint, when
+    t = rng.randrange(9)
+    if t == 8:      # S1, change x, S2, rollback S1, an equally long change of ANOTHER object of the same class
+        #             (the temporary store is back at S2's position), S3, more changes, rollback S3
+        x, y = rng.choice([(1, 4), (4, 1), (2, 5), (5, 2), (3, 6), (6, 3)])
+        n = 7
+        ops = ['link 0 %d' % x, 'link 0 %d' % y, 'commit', 'mod 0 %d' % val(), 'sp', 'mod %d %d' % (x, val()), 'sp',
+               'rb 0', 'mod %d %d' % (y, val()), 'sp', 'mod %d %d' % (rng.choice([x, y]), val()),
+               'rb 2', 'read %d' % x, 'read %d' % y, rng.choice(['commit', 'abort', 'rb 0'])]
+    elif t == 7:      # the commit's own checkpoint fails (unpicklable object) after an earlier savepoint, when
         #             another new object of the same step is already stored (the stack is LIFO)
         ops = ['mod 0 %d' % val()]
         if rng.random() < 0.5:
@@ -1076,6 +1122,7 @@ def nontrivial(case, real, pid):
     """the rule of DESIGN 4.21, measured on the executed trace (through the oracle's bookkeeping)"""
     if case.get('family'):
         return False
+    pid = case.get('as', pid)
     o = Oracle(case['n'], pid)
     implicit = failed = False
     rbs, older = 0, False
@@ -1114,7 +1161,7 @@ def load_corpus(pid):
             if f.endswith('.json'):
                 with open(os.path.join(d, f)) as fh:
                     c = json.load(fh)
-                out.append({k: c[k] for k in ('kind', 'n', 'ops', 'selfact', 'family') if k in c})
+                out.append({k: c[k] for k in ('kind', 'n', 'ops', 'selfact', 'family', 'as', 'two') if k in c})
     return out
 
 
@@ -1152,7 +1199,7 @@ def run_check(pid, argv=None):
     if ck.replay_path:
         with open(ck.replay_path) as f:
             c = json.load(f)['case']
-        cases = [{k: c[k] for k in ('kind', 'n', 'ops', 'selfact', 'family') if k in c}]
+        cases = [{k: c[k] for k in ('kind', 'n', 'ops', 'selfact', 'family', 'as', 'two') if k in c}]
         ncases = 0
     kinds = KINDS
     for m in range(ncases):
